@@ -151,6 +151,8 @@ def load_fn(manifest):
         (r"file\.read\(reinterpret_cast<char\*>\(&programSize\), 4\);", "FILE_READ_U32(&programSize);", 1, 1),
         (r"std::vector<uint32_t> buffer\(remainingFileSize\);", "size_t buffer_size = remainingFileSize; /* std::vector<uint32_t> buffer(remainingFileSize) */", 1, 1),
         (r"file\.read\(reinterpret_cast<char\*>\(buffer\.data\(\)\), remainingFileSize\);", "FILE_READ_BUFFER(remainingFileSize);", 1, 1),
+        # zero fill of the whole RTL memory array (absent on trees where load() leaves the power-on contents in place)
+        (r"std::memset\(top->hex->u_memory->memory_q\.data\(\), 0, sizeof\(top->hex->u_memory->memory_q\)\);", "TB_MEMZERO_DUT(4u * (size_t)RTL_WORDS);", 0, 1),
         (r"std::memcpy\(top->hex->u_memory->memory_q\.data\(\), buffer\.data\(\), buffer\.size\(\)\);", "TB_MEMCPY_TO_DUT(buffer_size);", 1, 1),
         (r"std::cout << \"Wrote \" << programSize << \" bytes to memory\\n\";", "TB_BANNER(programSize);", 1, 1),
     ], "hextb load", manifest)
